@@ -98,9 +98,12 @@ struct C16 : Prop {
 	J generate(Rng &r, const std::string &tier, uint64_t) override {
 		bool thorough = tier == "thorough";
 		J plan = J::obj();
-		cfg::GenOpts o; o.max_boards = thorough ? 4 : 3; o.max_trains = 3; o.allow_absent = true;
+		cfg::GenOpts o; o.max_boards = thorough ? 4 : 3; o.max_trains = r.chance(200) ? 12 : 3; o.allow_absent = true;   // (more than six trains on one track output: the zero-speed commands of the shutdown exceed one response budget)
 		cfg::World w = cfg::gen_world(r, o);
 		cfg::install(plan, w, r);
+		// one run in eight: the command stations never confirm a state change (MSG_CS_STATE answers lost on the bus): what the library has recorded as
+		// their state stays at the initial value, the shutdown sequence must be commanded all the same
+		if (r.chance(125)) { J bus = plan["bus"]; J da = J::arr(); da.push((int) MSG_CS_STATE); bus.set("drop_answers", da); plan.set("bus", bus); plan.set("cs_state_answers_lost", true); }
 		// config 1: truncated copy of a file (start fails)
 		{
 			J cfgs = plan["configs"]; J bad = cfgs[0];
@@ -140,13 +143,13 @@ struct C16 : Prop {
 	std::vector<int> created_before;
 	std::map<std::string, int64_t> live_by_kind;
 	std::vector<std::string> transcripts, states;
-	uint64_t leak_checks = 0, shutdown_msgs = 0, compared = 0, robust_compared = 0;
+	uint64_t leak_checks = 0, shutdown_msgs = 0, compared = 0, robust_compared = 0, expiry_dependent_not_compared = 0;
 	std::set<int> thread_set_sizes;
 	size_t tev_begin = 0;
 
 	void attach(Engine &e) override {
 		world = cfg::from_json(e.plan["world"]);
-		live_by_kind.clear(); transcripts.clear(); states.clear(); leak_checks = shutdown_msgs = compared = robust_compared = 0; thread_set_sizes.clear(); tev_begin = 0;
+		live_by_kind.clear(); transcripts.clear(); states.clear(); leak_checks = shutdown_msgs = compared = robust_compared = expiry_dependent_not_compared = 0; thread_set_sizes.clear(); tev_begin = 0;
 	}
 
 	void on_session_start(Engine &e, int s, int ret) override {
@@ -250,7 +253,11 @@ struct C16 : Prop {
 		}
 		transcripts.push_back(tr);
 		states.push_back(st);
-		if (se.has("reference_of")) {
+		// Lost answers bring the library's 2 s expiry (whole seconds of time()) into play: whether a held-back message is released before the stop
+		// depends on where in its second the session began, which differs between a session and its reference copy. Those runs keep every other
+		// oracle (shutdown sequence, threads, heap) and skip the transcript comparison.
+		if (se.has("reference_of") && e.plan.getb("cs_state_answers_lost")) { expiry_dependent_not_compared++; }
+		else if (se.has("reference_of")) {
 			size_t r0 = (size_t) se.geti("reference_of");
 			compared++;
 			if (transcripts[r0] != transcripts[(size_t) s] || states[r0] != states[(size_t) s]) {
@@ -268,7 +275,7 @@ struct C16 : Prop {
 	void coverage(Engine &e, J &f) override {
 		f.set("nontrivial", e.plan["sessions"].size() >= 3 && thread_set_sizes.size() >= 2);
 		f.set("shape", (long long) (pc::shape_hash(e.plan) >> 1));
-		J p = J::obj(); p.set("leak_comparisons", (long long) leak_checks); p.set("shutdown_messages_checked", (long long) shutdown_msgs); p.set("reference_comparisons", (long long) compared); p.set("reference_comparisons_timing_robust_form", (long long) robust_compared);
+		J p = J::obj(); p.set("leak_comparisons", (long long) leak_checks); p.set("shutdown_messages_checked", (long long) shutdown_msgs); p.set("reference_comparisons", (long long) compared); p.set("reference_comparisons_timing_robust_form", (long long) robust_compared); p.set("runs_with_lost_cs_state_answers", e.plan.getb("cs_state_answers_lost") ? 1 : 0);
 		p.set("sessions", (long long) e.plan["sessions"].size());
 		f.set("probes", p);
 	}
